@@ -182,7 +182,7 @@ ssize_t __wrap_read(int fd, void *buf, size_t n)
 }
 
 /* ------------------------------------------------------------------ allocator */
-typedef struct { void *p; size_t size; const char *file; const char *func; int line; uint64_t index; } blk_t;
+typedef struct { void *p; size_t size; const char *file; const char *func; int line; uint64_t index; void *pcs[6]; } blk_t;
 #define TAB_BITS 16
 #define TAB_SIZE (1u << TAB_BITS)
 static blk_t g_tab[TAB_SIZE];
@@ -192,7 +192,8 @@ static uint64_t g_alloc_idx, g_alloc_total, g_alloc_fired, g_unknown_frees;
 static uint64_t g_fail_idx[MAX_FAIL]; static int g_fail_n;
 static uint64_t g_burst_from = (uint64_t) -1, g_burst_n;
 static const char *g_fail_file, *g_fail_func;
-static int g_bug_moves = 0, g_bug_poison = 1, g_track = 1;
+static int g_bug_moves = 0, g_bug_poison = 1, g_track = 1, g_alloc_verbose = 0;
+void vsim_alloc_verbose(int on) { g_alloc_verbose = on; }
 static vsim_block_info_t g_last_fired; static int g_have_last_fired;
 static void *const TOMB = (void *) 1;
 
@@ -207,6 +208,19 @@ static blk_t *tab_find(const void *p)
     }
     return NULL;
 }
+static void capture_pcs(void **pcs, int n)
+{
+    void **fp = (void **) __builtin_frame_address(0);
+    for (int i = 0; i < n; i++) { pcs[i] = NULL; }
+    /* skip our own frames (capture_pcs, tab_put, do_alloc, vsim_malloc) by starting two levels up; tolerate inlining */
+    for (int i = 0; i < n + 3 && fp; i++)
+    {
+        void **next = (void **) fp[0];
+        if (i >= 3) { pcs[i - 3] = fp[1]; }
+        if (next <= fp || (uintptr_t) next - (uintptr_t) fp > (1u << 20)) { break; }
+        fp = next;
+    }
+}
 static void tab_put(void *p, size_t size, const char *file, const char *func, int line, uint64_t idx)
 {
     unsigned i = hptr(p);
@@ -215,6 +229,7 @@ static void tab_put(void *p, size_t size, const char *file, const char *func, in
         if (g_tab[i].p == NULL || g_tab[i].p == TOMB)
         {
             g_tab[i].p = p; g_tab[i].size = size; g_tab[i].file = file; g_tab[i].func = func; g_tab[i].line = line; g_tab[i].index = idx;
+            capture_pcs(g_tab[i].pcs, 6);
             g_live_blocks++; g_live_bytes += size;
             if (g_live_bytes > g_peak_bytes) { g_peak_bytes = g_live_bytes; }
             return;
@@ -247,7 +262,7 @@ int vsim_alloc_live_list(vsim_block_info_t *out, int max)
         if (g_tab[i].p && g_tab[i].p != TOMB)
         {
             out[n].file = g_tab[i].file; out[n].func = g_tab[i].func; out[n].line = g_tab[i].line;
-            out[n].size = g_tab[i].size; out[n].index = g_tab[i].index; n++;
+            out[n].size = g_tab[i].size; out[n].index = g_tab[i].index; memcpy(out[n].pcs, g_tab[i].pcs, sizeof out[n].pcs); n++;
         }
     }
     return n;
@@ -269,9 +284,13 @@ static int should_fail(const char *file, const char *func)
     return 0;
 }
 
+extern void __sanitizer_print_stack_trace(void) __attribute__((weak));
+static long g_bt_alloc = -2;
 static void *do_alloc(size_t n, int zero, const char *file, const char *func, int line)
 {
     vsim_sched_point(1);
+    if (g_bt_alloc == -2) { const char *e = getenv("VSIM_BT_ALLOC"); g_bt_alloc = e ? atol(e) : -1; }
+    if (g_bt_alloc >= 0 && (long) g_alloc_idx == g_bt_alloc && __sanitizer_print_stack_trace) { dprintf(2, "VSIM allocation #%ld (%zu bytes):\n", g_bt_alloc, n); __sanitizer_print_stack_trace(); }
     int fail = should_fail(file, func);
     uint64_t idx = g_alloc_idx++;
     g_alloc_total++;
@@ -281,6 +300,7 @@ static void *do_alloc(size_t n, int zero, const char *file, const char *func, in
         g_alloc_fired++;
         g_last_fired.file = file; g_last_fired.func = func; g_last_fired.line = line; g_last_fired.size = n; g_last_fired.index = idx;
         g_have_last_fired = 1;
+        if (g_alloc_verbose) { const char *b = file ? strrchr(file, '/') : NULL; dprintf(2, "VSIM-ALLOC-FAIL %s:%s\n", b ? b + 1 : (file ? file : "?"), func ? func : "?"); }
         return NULL;
     }
     void *p = malloc(n ? n : 1);
@@ -336,7 +356,7 @@ void vsim_run_reset(uint64_t seed)
     vsim_alloc_fail_clear();
     g_alloc_idx = 0; g_alloc_fired = 0; g_alloc_total = 0; g_unknown_frees = 0; g_have_last_fired = 0;
     g_peak_bytes = g_live_bytes; g_max_req = 0;
-    g_bug_moves = 0; g_bug_poison = 1; g_track = 1;
+    g_bug_moves = 0; g_bug_poison = 1; g_track = 1; g_alloc_verbose = 0;
     t_node = 0;
     vsim_probe_reset();
 }
@@ -540,4 +560,22 @@ int __wrap_pthread_mutex_unlock(pthread_mutex_t *m)
 {
     if (g_enabled && vsim_mutex_unlock_hook(m) == 0) { return 0; }
     return __real_pthread_mutex_unlock(m);
+}
+
+extern void __sanitizer_symbolize_pc(void *pc, const char *fmt, char *out_buf, size_t out_buf_size) __attribute__((weak));
+void vsim_block_owner(const vsim_block_info_t *b, char *out, size_t n)
+{
+    static const char *GENERIC[] = { "psBufInit", "psDynBufInit", "psBufDetach", "psDynBufDetach", "psDynBufGrow", "psDynBufAppendSize", "psDynBufAppendOctets", "psDynBufAppendTlsVector",
+                                     "psBufFromData", "vsim_malloc", "vsim_calloc", "vsim_realloc", "do_alloc", "tab_put", "pstm_init_size", "pstm_init", "pstm_init_copy", "pstm_init_for_read_unsigned_bin", "pstm_grow", NULL };
+    snprintf(out, n, "%s", b->func ? b->func : "?");
+    if (!__sanitizer_symbolize_pc) { return; }
+    for (int i = 0; i < 6 && b->pcs[i]; i++)
+    {
+        char name[128]; name[0] = 0;
+        __sanitizer_symbolize_pc((char *) b->pcs[i] - 1, "%f", name, sizeof name);
+        if (!name[0] || !strcmp(name, "<null>") || !strcmp(name, "??")) { continue; }
+        int generic = 0;
+        for (int g = 0; GENERIC[g]; g++) { if (!strcmp(name, GENERIC[g])) { generic = 1; break; } }
+        if (!generic) { snprintf(out, n, "%s", name); return; }
+    }
 }
